@@ -45,8 +45,15 @@ class Ctx:
         self.tree = self.dump_info['tree_hash']
 
     def cached(self, name, fn):
+        """results of the shared explorations are reused between the checks of one run; the key covers the source tree
+        under check, the tier, the seed and the checker's own code"""
         os.makedirs(CACHE, exist_ok=True)
-        p = os.path.join(CACHE, f"{name}-{self.tree}-{self.tier}.pkl")
+        h = hashlib.sha256()
+        for f in sorted(os.listdir(os.path.join(ROOT, 'mirse'))):
+            if f.endswith('.py'):
+                h.update(open(os.path.join(ROOT, 'mirse', f), 'rb').read())
+        h.update(open(os.path.join(ROOT, 'replay', 'src', 'main.rs'), 'rb').read())
+        p = os.path.join(CACHE, f"{name}-{self.tree}-{self.tier}-{self.seed}-{h.hexdigest()[:12]}.pkl")
         if os.path.exists(p):
             try:
                 return pickle.load(open(p, 'rb')), True
